@@ -33,6 +33,9 @@ type absWorldT struct {
 	validated map[uint64]bool // nonce -> ValidateBlock returned nil at some point
 	applyLog  []uint64        // nonces in the order consensus.ApplyBlock was called
 	aus       map[uint64]*consensus.ApplyUpdate
+	curOldLeaves, curRevertLeaves uint64
+	applyTag, revertTag           byte
+	proofUpdates                  int
 }
 
 var absW *absWorldT
@@ -113,11 +116,54 @@ func stubApplyBlock(s consensus.State, b types.Block, bs consensus.V1BlockSupple
 		panic("consensus: supplement shorter than block") // index out of range in core
 	}
 	absW.applyLog = append(absW.applyLog, b.Nonce)
+	next := stubApplyHeader(s, b.Header(), targetTimestamp)
 	var au consensus.ApplyUpdate
-	if p := absW.aus[b.Nonce]; p != nil {
-		au = *p
+	if b.ParentID != (types.BlockID{}) {
+		// element accumulator: every block adds its chain index element plus the
+		// outputs of its v2 transactions; leaf numbers start far above the
+		// confirmed outputs the harness transactions spend
+		base := s.Elements.NumLeaves
+		if base < absLeafBase {
+			base = absLeafBase
+		}
+		sces, n := absBlockDiffs(b, base+1)
+		next.Elements.NumLeaves = n
+		vapi.SetField(&au, "sces", sces)
+		absW.curOldLeaves = base
+		absW.applyTag = byte(b.Nonce)
 	}
-	return stubApplyHeader(s, b.Header(), targetTimestamp), au
+	return next, au
+}
+
+const absLeafBase = 1000
+
+// absBlockDiffs lists the siacoin element diffs of the v2 transactions of b in
+// application order; leaf numbers for created elements start at first.
+func absBlockDiffs(b types.Block, first uint64) ([]consensus.SiacoinElementDiff, uint64) {
+	var sces []consensus.SiacoinElementDiff
+	pos := map[types.SiacoinOutputID]int{}
+	next := first
+	for _, txn := range b.V2Transactions() {
+		txid := txn.ID()
+		for _, sci := range txn.SiacoinInputs {
+			if k, ok := pos[sci.Parent.ID]; ok {
+				sces[k].Spent = true // created and spent in this block: ephemeral
+				continue
+			}
+			pos[sci.Parent.ID] = len(sces)
+			sces = append(sces, consensus.SiacoinElementDiff{SiacoinElement: sci.Parent.Copy(), Spent: true})
+		}
+		for i, sco := range txn.SiacoinOutputs {
+			id := txn.SiacoinOutputID(txid, i)
+			pos[id] = len(sces)
+			sces = append(sces, consensus.SiacoinElementDiff{
+				SiacoinElement: types.SiacoinElement{ID: id, SiacoinOutput: sco, StateElement: types.StateElement{LeafIndex: next, MerkleProof: []types.Hash256{{byte(b.Nonce)}}}},
+				Created:        true,
+			})
+			next++
+		}
+	}
+	return sces, next
 }
 
 //verif:replace go.sia.tech/core/consensus.RevertBlock
@@ -125,7 +171,48 @@ func stubRevertBlock(s consensus.State, b types.Block, bs consensus.V1BlockSuppl
 	if s.Index.ID != b.ParentID {
 		panic("consensus: cannot revert non-child block")
 	}
-	return consensus.RevertUpdate{}
+	var ru consensus.RevertUpdate
+	base := s.Elements.NumLeaves
+	if base < absLeafBase {
+		base = absLeafBase
+	}
+	sces, _ := absBlockDiffs(b, base+1)
+	// core reverses every diff list of a revert update
+	for i, j := 0, len(sces)-1; i < j; i, j = i+1, j-1 {
+		sces[i], sces[j] = sces[j], sces[i]
+	}
+	vapi.SetField(&ru, "sces", sces)
+	absW.curRevertLeaves = s.Elements.NumLeaves
+	absW.revertTag = byte(absNonce(s.Index.ID))
+	return ru
+}
+
+// UpdateElementProof: core's pre-conditions as panics; the post-condition is
+// modelled by tagging the proof with the state it now refers to.
+//
+//verif:replace (go.sia.tech/core/consensus.ApplyUpdate).UpdateElementProof
+func stubApplyUpdateProof(au consensus.ApplyUpdate, e *types.StateElement) {
+	_ = e.Move() // panics if the element is shared
+	if e.LeafIndex == types.UnassignedLeafIndex {
+		panic("cannot update an ephemeral element")
+	}
+	absW.proofUpdates++
+	if e.LeafIndex >= absW.curOldLeaves {
+		return // newly-added element
+	}
+	e.MerkleProof = []types.Hash256{{absW.applyTag, byte(e.LeafIndex)}}
+}
+
+//verif:replace (go.sia.tech/core/consensus.RevertUpdate).UpdateElementProof
+func stubRevertUpdateProof(ru consensus.RevertUpdate, e *types.StateElement) {
+	_ = e.Move() // panics if the element is shared
+	if e.LeafIndex == types.UnassignedLeafIndex {
+		panic("cannot update an ephemeral element")
+	} else if e.LeafIndex >= absW.curRevertLeaves {
+		panic("cannot update an element that is not present in the accumulator")
+	}
+	absW.proofUpdates++
+	e.MerkleProof = []types.Hash256{{absW.revertTag, byte(e.LeafIndex)}}
 }
 
 //verif:replace (go.sia.tech/core/consensus.State).SufficientlyHeavierThan
